@@ -158,7 +158,7 @@ def harnesses(tier):
 ORACLES = [
     {'name': 'node vs CPython differential on the extracted JS block; exhaustive toLowerCase/lower code-point comparison (A5)',
      'script': 'C13.py',
-     'bound': 'all ordered tag lists up to length 3 (quick) / 4 (thorough) from 9 tags x 7 amounts; all 1,114,112 code points for lower-casing'},
+     'bound': 'all ordered tag lists up to length 3 (quick) / 4 (thorough) from 9 tags x 7 amounts; all 1,114,112 code points for lower-casing; the report script\'s own filteredViewTotals under node on 4 transaction sets with non-uniform merchant tags'},
 ]
 TRUSTED_BASE = [
     'pyvc symbolic executor and the JS-subset front end pyvc/jsfront.py with its translation table (A11)',
